@@ -52,11 +52,11 @@ func newIVWithTables(w *World, tb *TB, ef *Effects) *IV {
 }
 
 type hotpPipe struct {
-	der    *ssa.Function
-	sum    *ssa.Call
-	sumT   *Term
-	modT   *Term
-	rends  []*ssa.Function
+	der   *ssa.Function
+	sum   *ssa.Call
+	sumT  *Term
+	modT  *Term
+	rends []*ssa.Function
 }
 
 // checkHOTPDerivation applies the RFC 4226 composition rules to one derivation function.
@@ -487,12 +487,12 @@ func checkParamResolution(c *Check, w *World, tb *TB, rule string, entry *ssa.Fu
 	want := func(field string) string {
 		return fmt.Sprintf("ite(bin(==; const(nil); %s); field(%s; %s); field(%s; %s))", P, field, def, field, P)
 	}
-	dT := h.Args[roles.Digits]
+	dT := tb.Norm(h.Args[roles.Digits])
 	for dT.Op == "call" && strings.HasSuffix(dT.Sym, ".Int") && len(dT.Args) == 1 {
 		dT = dT.Args[0]
 	}
 	c.Decide(dT.String() == want("Digits"), rule, fn, "digits-resolution", "digits = param.Digits, or the default's when param is nil", "the digits handed to the derivation are "+clip(dT.String(), 200), w.InstrPos(h.Call))
-	c.Decide(h.Args[roles.Algo].String() == want("Algorithm"), rule, fn, "algorithm-resolution", "algorithm = param.Algorithm, or the default's when param is nil", "the algorithm handed to the derivation is "+clip(h.Args[roles.Algo].String(), 200), w.InstrPos(h.Call))
+	c.Decide(tb.EqNorm(h.Args[roles.Algo], want("Algorithm")), rule, fn, "algorithm-resolution", "algorithm = param.Algorithm, or the default's when param is nil", "the algorithm handed to the derivation is "+clip(h.Args[roles.Algo].String(), 200), w.InstrPos(h.Call))
 	// the default literal
 	e, info := w.GlobalInit(OtpPath, defName)
 	lit := EvalLit(e, info)
